@@ -1124,6 +1124,34 @@ where
                 }
             }
         }
+        // (2b) every field is consulted at every decision point a connection passed: an accepted
+        // outgoing dial (transport attempts exist) was put to every field's
+        // handle_pending_outbound_connection, an accepted inbound connection to every
+        // handle_pending_inbound_connection, an established one to every handle_established_*
+        for (i, c) in self.conns.iter().enumerate() {
+            let cid = self.sys.cids[i];
+            let asked = |kind: u8| -> Vec<u8> {
+                self.full_log
+                    .iter()
+                    .filter_map(|e| match e {
+                        LogEv::PendingIn { f, cid: x, .. } if *x == cid && kind == 0 => Some(*f),
+                        LogEv::PendingOut { f, cid: x, .. } if *x == cid && kind == 1 => Some(*f),
+                        LogEv::EstIn { f, cid: x, .. } | LogEv::EstOut { f, cid: x, .. } if *x == cid && kind == 2 => Some(*f),
+                        _ => None,
+                    })
+                    .collect()
+            };
+            let all: Vec<u8> = (0..nf).collect();
+            if c.out && !c.attempts.is_empty() && asked(1) != all {
+                return Err(format!("field-not-asked pending-outbound :: c{i} was dialed (transport attempts exist) but handle_pending_outbound_connection reached fields {:?} of {nf}", asked(1)));
+            }
+            if c.incoming_seen && asked(0) != all {
+                return Err(format!("field-not-asked pending-inbound :: c{i} was accepted as pending inbound but handle_pending_inbound_connection reached fields {:?} of {nf}", asked(0)));
+            }
+            if c.sw.iter().any(|s| s == "Est") && asked(2) != all {
+                return Err(format!("field-not-asked established :: c{i} is established but handle_established_* reached fields {:?} of {nf}", asked(2)));
+            }
+        }
         // (3) denial short-circuits: after a field denied, later fields are not asked, and no
         // handler of that connection is ever polled
         for (i, c) in self.conns.iter().enumerate() {
